@@ -29,16 +29,17 @@ MARK = '\x01'
 # catalogs (fresh copies per use) and the stub executor
 # ---------------------------------------------------------------------------------------------
 _DI = [{'name': 'int', 'type': 'data', 'class_type': 'sql'}, {'name': 'int2', 'type': 'data', 'class_type': 'sql'}]
+# a plain model and a time-series one (its joins are planned by a different code path, which builds the final projection itself)
+_PM = [{'name': 'pred', 'integration_name': 'mindsdb'},
+       {'name': 'tp', 'integration_name': 'mindsdb', 'timeseries': True, 'order_by_column': 'x', 'group_by_columns': ['k'], 'window': 5, 'horizon': 2}]
 CATALOGS = {
     # the same catalogs with integrations given as dicts (kept by reference by the planner)
     'one_d': {'integrations': [_DI[0]], 'predictor_namespace': 'mindsdb', 'predictor_metadata': [], 'default_namespace': None},
     'two_d': {'integrations': _DI, 'predictor_namespace': 'mindsdb', 'predictor_metadata': [], 'default_namespace': None},
-    'model_d': {'integrations': _DI, 'predictor_namespace': 'mindsdb',
-                'predictor_metadata': [{'name': 'pred', 'integration_name': 'mindsdb'}], 'default_namespace': None},
+    'model_d': {'integrations': _DI, 'predictor_namespace': 'mindsdb', 'predictor_metadata': _PM, 'default_namespace': None},
     'one': {'integrations': ['int'], 'predictor_namespace': 'mindsdb', 'predictor_metadata': [], 'default_namespace': None},
     'two': {'integrations': ['int', 'int2'], 'predictor_namespace': 'mindsdb', 'predictor_metadata': [], 'default_namespace': None},
-    'model': {'integrations': ['int', 'int2'], 'predictor_namespace': 'mindsdb',
-              'predictor_metadata': [{'name': 'pred', 'integration_name': 'mindsdb'}], 'default_namespace': None},
+    'model': {'integrations': ['int', 'int2'], 'predictor_namespace': 'mindsdb', 'predictor_metadata': _PM, 'default_namespace': None},
 }
 COLS = [{'name': n, 'type': t} for n, t in
         [('a', 'int'), ('b', 'str'), ('c', 'int'), ('d', 'float'), ('id', 'int'), ('x', 'int'), ('y', 'str'), ('k', 'int'), ('p', 'float')]]
@@ -179,8 +180,30 @@ class Gen:
     def statement(self):
         rng = self.rng
         depth = rng.choice([0, 1, 1, 2, 2, 3])
-        k = rng.randrange(30)
+        k = rng.randrange(33)
         cols = ['a', 'b', 'c', 'd']
+        if k >= 30:  # table joined with a model (32) or a time-series model (30, 31): free-form select list, no star
+            tc = ['t.a', 'm.p', 't.c']
+            ch = [('m', 'select ')]
+            for i in range(rng.randint(1, 3)):
+                t = self.expr(tc, min(depth, 2))
+                if rng.random() < 0.3:
+                    t += ' as r%d' % i
+                ch.append(('m' if i == 0 else 'o', t if i == 0 else ', ' + t))
+            if k == 32:
+                ch.append(('m', ' from int.t1 as t join mindsdb.pred as m'))
+                ch.append(('o', ' where t.x > ' + rng.choice([MARK, '1'])))
+            else:
+                ch.append(('m', ' from int.t1 as t join mindsdb.tp as m'))
+                ch.append(('o', ' where t.x > ' + rng.choice(['latest', 'latest', MARK, '10'])))
+            if ch[-1][1].startswith(' where'):
+                if rng.random() < 0.6:
+                    ch.append(('o', ' and t.k = ' + rng.choice([MARK, '1'])))
+                if rng.random() < 0.3:
+                    ch.append(('o', ' and t.c in (%s, %s)' % (self.atom(['t.a']), self.atom(['t.a']))))
+            if rng.random() < 0.2:
+                ch.append(('o', ' limit 5'))
+            return ch, 'model'
         if k == 26:  # CREATE TABLE ... (SELECT ...)
             ch = [('m', 'create table int.t9 (select '), ('m', self.expr(cols, min(depth, 1))), ('o', ', ' + self.atom(cols)), ('m', ' from int2.t2 where '),
                   ('m', self.cond(cols, depth)), ('m', ')')]
